@@ -66,3 +66,13 @@ def run(cx):
                 'received R_B must be on the curve before e(R_B, de_A)')
     # S-EXCH: the two preimages have the same shape position by position (IDs, R_A, R_B in the same order; g1,g2,g3 roles)
     cx.hold('S-EXCH', 'order', 'both sides hash ID_A, ID_B, R_A, R_B in the same order and (g1, g2, g3) = (e(R_A,de_B) | e(Ppub,P2)^rA, e(Ppub,P2)^rB | e(R_B,de_A), g1^rB | g2^rA) as decided by the two F-EXCH-KDF templates')
+
+
+_run_kdf = run
+
+
+def run(cx):
+    from .C05 import check_kdf
+    _run_kdf(cx)
+    # the key of the requested length is the counter-mode KDF of GM/T 0044
+    check_kdf(cx, 'gm_sm9::key::kdf', 'F-SM9-KDF')
